@@ -234,6 +234,7 @@ impl Report {
         let known = load_known(self.prop);
         let mut exit = 0;
         let mut unlisted = 0;
+        let mut known_seen: Vec<J> = vec![];
         let mut seen = BTreeSet::new();
         let _ = std::fs::create_dir_all(dir.join("replays"));
         let _ = std::fs::create_dir_all(dir.join("evidence"));
@@ -266,6 +267,7 @@ impl Report {
             let _ = std::fs::write(&path, body.render());
             if let Some(k) = known.iter().find(|k| k.sig == v.signature) {
                 println!("KNOWN-FINDING: property={} {}", self.prop, k.text);
+                known_seen.push(J::obj().set("signature", J::s(v.signature.clone())).set("listed_as", J::s(k.text.clone())).set("witness", J::s(v.message.clone())));
             } else {
                 unlisted += 1;
                 exit = 1;
@@ -319,7 +321,8 @@ impl Report {
             .set("coverage", cov)
             .set("assumptions", J::arr_s(self.assumptions.iter().cloned()))
             .set("wall_s", J::Num(self.start.elapsed().as_secs_f64()))
-            .set("violations", J::i(unlisted as u64));
+            .set("violations", J::i(unlisted as u64))
+            .set("known_findings_reproduced", J::Arr(known_seen));
         let path = dir.join("evidence").join(format!("{}.json", self.prop));
         if let Err(e) = std::fs::write(&path, ev.render()) {
             eprintln!("cannot write evidence {}: {}", path.display(), e);
